@@ -53,6 +53,9 @@ type Edge struct {
 	Site   ssa.CallInstruction
 	Callee *ssa.Function
 	Kind   string // static | invoke | dynamic | closure
+	// StdIface: the invoke goes through an interface declared outside the module
+	// (io.Writer, http.ResponseWriter, ...): module implementers are CHA guesses.
+	StdIface bool
 }
 
 // CheckerError aborts the run with exit code 3: the checker cannot decide.
@@ -511,7 +514,13 @@ func (p *Prog) BuildCallGraph() {
 								}
 							}
 							if !dup {
-								add(&Edge{fn, c, m, "invoke"})
+								std := true
+								if n, ok := cc.Value.Type().(*types.Named); ok && n.Obj().Pkg() != nil {
+									if _, inMod := p.ModPkgs[n.Obj().Pkg()]; inMod {
+										std = false
+									}
+								}
+								add(&Edge{Caller: fn, Site: c, Callee: m, Kind: "invoke", StdIface: std})
 							}
 						}
 					}
@@ -520,13 +529,13 @@ func (p *Prog) BuildCallGraph() {
 				if sc := cc.StaticCallee(); sc != nil {
 					sc = p.unwrap(sc)
 					if p.inModule(sc) {
-						add(&Edge{fn, c, sc, "static"})
+						add(&Edge{Caller: fn, Site: c, Callee: sc, Kind: "static"})
 					}
 					continue
 				}
 				// dynamic call through a function value
 				if mc, ok := cc.Value.(*ssa.MakeClosure); ok {
-					add(&Edge{fn, c, mc.Fn.(*ssa.Function), "closure"})
+					add(&Edge{Caller: fn, Site: c, Callee: mc.Fn.(*ssa.Function), Kind: "closure"})
 					continue
 				}
 				sig, _ := cc.Value.Type().Underlying().(*types.Signature)
@@ -534,7 +543,7 @@ func (p *Prog) BuildCallGraph() {
 					continue
 				}
 				for _, t := range taken[sigKey(sig)] {
-					add(&Edge{fn, c, t, "dynamic"})
+					add(&Edge{Caller: fn, Site: c, Callee: t, Kind: "dynamic"})
 				}
 			}
 		}
@@ -604,6 +613,35 @@ func (p *Prog) Reach(roots ...*ssa.Function) map[*ssa.Function]bool {
 					}
 				}
 			}
+		}
+	}
+	return seen
+}
+
+// ReachModuleIfaces is Reach without the class-hierarchy guesses for invokes
+// through interfaces declared outside the module (and without signature-matched
+// dynamic calls): used where the receiver of such an invoke is known, by a
+// separately checked invariant, to be the caller-supplied object.
+func (p *Prog) ReachModuleIfaces(roots ...*ssa.Function) map[*ssa.Function]bool {
+	seen := map[*ssa.Function]bool{}
+	var work []*ssa.Function
+	push := func(f *ssa.Function) {
+		if f != nil && !seen[f] {
+			seen[f] = true
+			work = append(work, f)
+		}
+	}
+	for _, r := range roots {
+		push(r)
+	}
+	for len(work) > 0 {
+		f := work[len(work)-1]
+		work = work[:len(work)-1]
+		for _, e := range p.callees[f] {
+			if e.StdIface {
+				continue
+			}
+			push(e.Callee)
 		}
 	}
 	return seen
